@@ -66,6 +66,7 @@ class Builder:
         self.reloads = []      # per reload: names of the backends whose existing sessions belong to a replaced pool
         self.spare = "bx"      # a backend no pool points to at the start (reload targets)
         self.uses_reload = False
+        self.unsynced = 0      # refused cancel requests whose pooler task is not waited for (see cancel(refused=True))
         self.admin = None
         self._rng = random.Random(len(label) * 7919 + psize)
         pools = ["dba", "dbb"] if two_pools else ["dba"]
@@ -228,7 +229,10 @@ class Builder:
             self.steps.append({"op": "hook_wait", "actor": st["accept"], "timeout_ms": 6000})
         else:
             self.ended += 1
-            self.steps.append({"op": "wait_tasks", "n": self.ended, "timeout_ms": 6000})
+            if self.unsynced:
+                self.steps += [{"op": "wait_csm", "of": c, "present": False, "timeout_ms": 2000}, {"op": "sleep", "ms": 40}]
+            else:
+                self.steps.append({"op": "wait_tasks", "n": self.ended, "timeout_ms": 6000})
         self._release(c)
         self._snap()
 
@@ -298,11 +302,36 @@ class Builder:
         self.steps.append({"op": "wait_tasks", "n": self.ended, "timeout_ms": 6000})
         self._snap()
 
-    def cancel(self, target, rng=None):
-        """target: client name (the key issued to it) | ["pid_of", c] (right pid, wrong secret) | "random"."""
+    def refuse(self, backend, on):
+        """new connections to this backend are refused by the kernel (established sessions keep working) / accepted again"""
+        self.actions.append(["refuse", backend, on])
+        self.steps.append({"op": "backend", "b": backend, "refuse_new": bool(on)})
+
+    def settle(self, ms=1600):
+        """nothing happens for `ms`: a CancelRequest that arrives now was sent long ago (its window is judged too)"""
+        self.actions.append(["settle", ms])
+        self.steps += [{"op": "mark_events", "ev": "cancel", "mark": "late:%d" % len(self.steps)}, {"op": "sleep", "ms": ms}]
+        if self.unsynced:
+            # from here on every pooler task of a refused request has ended whatever the pooler does with it
+            self.unsynced = 0
+            self.steps.append({"op": "wait_tasks", "n": self.ended, "timeout_ms": 6000})
+        self._snap()
+
+    def cancel(self, target, rng=None, refused=False):
+        """target: client name (the key issued to it) | ["pid_of", c] (right pid, wrong secret) | "random".
+        refused: the server's listener is refusing connections right now (the pooler's task is not waited for:
+        a pooler that retried would still be busy)."""
         rng = rng or self._rng
-        self.actions.append(["cancel", target])
+        self.actions.append(["cancel", target] + (["refused"] if refused else []))
         self.steps.append({"op": "mark_events", "ev": "cancel", "mark": "k"})
+        if refused:
+            self.steps.append({"op": "cancel", "c": "canceller", "of": target, "timeout_ms": 150})
+            self.accepted += 1
+            self.ended += 1
+            self.unsynced += 1
+            self.steps.append({"op": "wait_event", "ev": "cancel", "above_mark": "k", "count": 1, "timeout_ms": 60})
+            self._snap()
+            return
         if isinstance(target, str) and target in self.cl:
             self.steps.append({"op": "cancel", "c": "canceller", "of": target, "timeout_ms": 1000})
         else:
@@ -315,8 +344,9 @@ class Builder:
                 self.steps.append({"op": "cancel", "c": "canceller", "pid_of": target[1], "key": 12345 + i, "timeout_ms": 1000})
         self.accepted += 1
         self.ended += 1
-        self.steps += [{"op": "wait_tasks", "n": self.ended, "timeout_ms": 6000},
-                       {"op": "wait_event", "ev": "cancel", "above_mark": "k", "count": 1, "timeout_ms": 60}]
+        if not self.unsynced:     # (the cancel step itself returns when the pooler closed the request's connection)
+            self.steps.append({"op": "wait_tasks", "n": self.ended, "timeout_ms": 6000})
+        self.steps.append({"op": "wait_event", "ev": "cancel", "above_mark": "k", "count": 1, "timeout_ms": 60})
         self._snap()
 
     def drain(self):
@@ -410,6 +440,7 @@ def systematic(hook):
                         b.drain()
                         b.cancel("c0"); b.cancel(o)
                         out.append(b)
+    out += refusal_family()
     if hook:
         for mode in ("transaction", "session"):
             for psize in (1, 2):
@@ -437,6 +468,84 @@ def systematic(hook):
                         b.finish("c1"); b.cancel("c1")
                         out.append(b)
     return out
+
+
+def refusal_family():
+    """D: the throw-away connection of the CancelRequest itself fails: the backend's listener refuses new
+    connections (established sessions keep working) while the request is made; the requester's statement ends,
+    another client takes the same server session, the listener comes back, and nothing happens for 1.6 s.
+    No CancelRequest may arrive at a session whose current borrower is not the requester — however late."""
+    out = []
+    # A transaction mode, pool of 1: the session changes hands between two clients
+    b = Builder("transaction", 1, 2, False, "tran/p1/refused-handover")
+    b.long("c0"); b.cancel("c0"); b.refuse("b0", True); b.cancel("c0", refused=True)
+    b.finish("c0"); b.long("c1"); b.refuse("b0", False); b.settle()
+    b.cancel("c1"); b.cancel("c0"); b.finish("c1"); b.cancel("c1")
+    out.append(b)
+    # B pool of 2, both sessions open before the listener goes away, both requests refused, sessions re-dealt
+    b = Builder("transaction", 2, 2, False, "tran/p2/refused-both")
+    b.long("c0"); b.long("c1"); b.refuse("b0", True); b.cancel("c0", refused=True); b.cancel("c1", refused=True)
+    b.finish("c0"); b.finish("c1"); b.long("c1"); b.long("c0"); b.refuse("b0", False); b.settle()
+    b.cancel("c0"); b.cancel("c1"); b.drain()
+    out.append(b)
+    # C session mode: the requester leaves with X, the next client gets its session
+    b = Builder("session", 1, 2, False, "sess/p1/refused-then-X")
+    b.stmt("c0"); b.long("c0"); b.refuse("b0", True); b.cancel("c0", refused=True)
+    b.finish("c0"); b.term("c0"); b.long("c1"); b.refuse("b0", False); b.settle()
+    b.cancel("c0"); b.cancel("c1"); b.finish("c1")
+    out.append(b)
+    # D inside a transaction block
+    b = Builder("transaction", 1, 2, False, "tran/p1/refused-in-txn")
+    b.begin("c0"); b.long("c0"); b.refuse("b0", True); b.cancel("c0", refused=True)
+    b.finish("c0"); b.commit("c0"); b.begin("c1"); b.long("c1"); b.refuse("b0", False); b.settle()
+    b.cancel("c1"); b.finish("c1"); b.commit("c1"); b.cancel("c1")
+    out.append(b)
+    # E the requester keeps its session through the whole settle time
+    b = Builder("session", 1, 2, False, "sess/p1/refused-still-holding")
+    b.long("c0"); b.refuse("b0", True); b.cancel("c0", refused=True); b.refuse("b0", False); b.settle()
+    b.cancel("c0"); b.finish("c0"); b.cancel("c0")
+    out.append(b)
+    # F two pools: only one backend refuses; the other pool's request goes through at once
+    b = Builder("transaction", 1, 4, True, "tran/p1/2pools/refused-one-backend")
+    b.long("c0"); b.long("c1"); b.refuse("b0", True); b.cancel("c0", refused=True); b.cancel("c1")
+    b.finish("c0"); b.long("c2"); b.refuse("b0", False); b.settle()
+    b.cancel("c2"); b.cancel("c1"); b.cancel("c0"); b.drain()
+    out.append(b)
+    return out
+
+
+def refusal_program(rng, idx):
+    """randomised variant of the refusal family (thorough tier)."""
+    mode = rng.choice(["transaction", "session"])
+    psize = rng.choice([1, 2])
+    b = Builder(mode, psize, 2, False, "random-refused#%d" % idx)
+    x, y = rng.sample(["c0", "c1"], 2)
+    if rng.random() < 0.5:
+        b.begin(x) if rng.random() < 0.5 else b.stmt(x)
+    b.long(x)
+    if psize == 2 and rng.random() < 0.5:
+        b.long(y)
+    if rng.random() < 0.5:
+        b.cancel(x)
+    b.refuse("b0", True)
+    b.cancel(x, refused=True)
+    if rng.random() < 0.3:
+        b.cancel(x, refused=True)
+    b.finish(x)
+    if b.cl[x]["in_txn"]:
+        b.commit(x)
+    if mode == "session":
+        b.term(x) if rng.random() < 0.5 else b.drop(x)
+    if b.can("finish", y):
+        b.finish(y)
+    if b.can("long", y) and (b.cl[y]["holds"] or b._free("dba")) and (psize == 1 or b.cl[y]["holds"]):
+        b.long(y)
+    b.refuse("b0", False)
+    b.settle(rng.choice([1600, 2700]))
+    b.cancel(y); b.cancel(x)
+    b.drain()
+    b.cancel(y)
+    return b
 
 
 def random_program(rng, idx, big):
@@ -563,6 +672,18 @@ def analyse(meta, res):
     exiting = {}                               # parked client -> session it held
     skip_recv = set()
     retired_sessions = set()
+    refusing = {}
+    last_refused_owner = [None]
+
+    def holder_of(backend, pid, key):
+        """who borrows, at this instant, the session of `backend` that carries (pid, key)"""
+        for sk, pk in sess.items():
+            if sk[0] == backend and pk == (pid, key):
+                for c in clients:
+                    if holding[c] == sk:
+                        return [sk[0], sk[1], c]
+                return [sk[0], sk[1], None]
+        return None
     ops, cancels, problems = [], [], []
     snaps = sorted(res.get("snapshots", []), key=lambda s: s["seq"])
     snap_at, si = [], 0
@@ -653,6 +774,16 @@ def analyse(meta, res):
             retired = sorted(sid_of[sk] for sk in sid_of if sk[0] in old and ready_seq[sk] < e["seq"])
             retired_sessions.update(sk for sk in sid_of if sk[0] in old and ready_seq[sk] < e["seq"])
             ops.append("Reload [%s]" % "; ".join(str(x) for x in retired))
+        elif kind == "refuse_new":
+            refusing[e.get("b")] = bool(e.get("on"))
+        elif kind == "mark" and str(e.get("mark", "")).startswith("late:"):
+            # settle time: whatever arrives from here on (until the next request) was sent long ago
+            lo = last_refused_owner[0] or ("random", None)
+            cancels.append({"seq": e["seq"], "owner": lo, "sym": None, "op_index": len(ops),
+                            "held": holding.get(lo[1]) if lo[0] == "client" else None,
+                            "owner_exiting": False, "exiting_held": None, "prior_same_key_since_checkout": False,
+                            "held_retired": False, "late": True, "events": []})
+            ops.append("DeliverLate")
         elif kind == "mark" and e.get("of") == "cancel":
             # the window of the next cancel request opens here (its packets may be logged by the
             # backend before the harness logs `cancel_sent`)
@@ -674,13 +805,18 @@ def analyse(meta, res):
                         break
                     if o == "CancelDrop " + sym:
                         cancels[-1]["prior_same_key_since_checkout"] = True
-            ops.append("Cancel " + sym)
+            refused = held is not None and refusing.get(held[0], False)
+            cancels[-1]["refused"] = refused
+            if refused:
+                last_refused_owner[0] = owner
+            ops.append(("CancelRefused " if refused else "Cancel ") + sym)
             ops.append("CancelDrop " + sym)
         elif kind == "cancel":
             if not cancels:
                 problems.append("a backend received a CancelRequest before any was sent: %s" % e)
                 continue
-            cancels[-1]["events"].append({"backend": who, "pid": e["pid"], "key": e["key"], "busy": e.get("busy"), "open": e.get("open"), "seq": e["seq"]})
+            cancels[-1]["events"].append({"backend": who, "pid": e["pid"], "key": e["key"], "busy": e.get("busy"), "open": e.get("open"), "seq": e["seq"],
+                                          "holder_now": holder_of(who, e["pid"], e["key"])})
     while si < len(snaps):
         snap_at.append((len(ops), snaps[si].get("csm"), snaps[si].get("label")))
         si += 1
@@ -707,7 +843,7 @@ def analyse(meta, res):
         else:
             b, conn = k["held"]
             want = sess[k["held"]]
-            if len(evs) == 0:
+            if len(evs) == 0 and not k.get("refused") and not k.get("late"):
                 v.append(("F28" if k["prior_same_key_since_checkout"] else None,
                           "%s holds session %s/%d but its key reached no backend" % (k["owner"][1], b, conn)))
             for x in evs:
@@ -718,6 +854,13 @@ def analyse(meta, res):
                         v.append((None, "contacted session %s/%d is executing %r, not a statement of %s" % (b, conn, sql, k["owner"][1])))
             if len(evs) > 1:
                 v.append((None, "one CancelRequest of %s produced %d packets" % (k["owner"][1], len(evs))))
+        for x in evs:
+            # at the instant the packet ARRIVES the session it names must be borrowed by the requester
+            hn = x.get("holder_now")
+            if hn is not None and k["owner"][0] == "client" and hn[2] != k["owner"][1]:
+                v.append((None, "CancelRequest for the key of %s arrived%s at session %s/%d which is %s at that instant" % (
+                    k["owner"][1], " late" if (k.get("late") or k.get("refused")) else "", hn[0], hn[1],
+                    ("borrowed by " + hn[2]) if hn[2] else "borrowed by nobody")))
         for x in evs:
             # model-free sanity of every packet: it names a session of the backend that received it
             if not any(bk == x["backend"] and pk == (x["pid"], x["key"]) for (bk, _), pk in sess.items()):
@@ -823,7 +966,7 @@ def evaluate(wire, metas, scns, workers):
     results = WL.run_scenarios(wire, scns, workers=workers, timeout=120)
     analyses = [analyse(m, r) for m, r in zip(metas, results)]
     good = [i for i, a in enumerate(analyses) if not a.get("error") and not a["problems"]]
-    exprs = ["(cancel_drop_removes code_variant, exit_entry_first code_variant, reload_prunes code_variant)"] + [coq_expr(analyses[i]) for i in good]
+    exprs = ["(cancel_drop_removes code_variant, exit_entry_first code_variant, reload_prunes code_variant, cancel_retries code_variant)"] + [coq_expr(analyses[i]) for i in good]
     vals = vlib.coq_eval("c10eval", PREAMBLE, exprs, shard=24)
     flags = vlib.parse_coq(vals[0])
     models = {i: vlib.parse_coq(v) for i, v in zip(good, vals[1:])}
@@ -886,8 +1029,8 @@ def run_batch(run, wire, builders, stats, samples, distinct):
             # a distinct case = (mode, pool size, pools, the abstract situation of the key's owner, outcome, op context)
             ctx = tuple(a["ops"][max(0, k["op_index"] - 3):k["op_index"]])
             distinct.add((m["mode"], m["psize"], m["two_pools"], k["owner"][0], k["held"] is not None, k["owner_exiting"],
-                          k["prior_same_key_since_checkout"], k.get("held_retired"), str(norm_outcome(a["obs"][j])) != "Silent", ctx))
-            kind = ("exit-window" if k["owner_exiting"] else "holder" if k["held"] is not None else k["owner"][0] if k["owner"][0] != "client" else "not-holding")
+                          k["prior_same_key_since_checkout"], k.get("held_retired"), k.get("late"), k.get("refused"), str(norm_outcome(a["obs"][j])) != "Silent", ctx))
+            kind = ("late-window" if k.get("late") else "refused-connection" if k.get("refused") else "exit-window" if k["owner_exiting"] else "holder" if k["held"] is not None else k["owner"][0] if k["owner"][0] != "client" else "not-holding")
             stats["timing_classes"][kind] = stats["timing_classes"].get(kind, 0) + 1
         if len(samples) < 6 and (i % 9 == 0 or m.get("parked")) and i in models:
             samples.append({"label": m["label"], "actions": m["actions"], "ops": a["ops"], "impl": [str(o) for o in a["obs"]],
@@ -931,6 +1074,8 @@ def check(run):
         wb = [b for b in wb if b is not None]
         nwin = len(wb)
         builders += wb
+    if not quick:
+        builders += [refusal_program(rng, i) for i in range(40)]
     if not proof_ok:
         # the model may not even compile: run the monitor alone by evaluating against a trivial model is impossible;
         # fall through to the batch (coq_eval needs Model.vo) only if Model.vo exists
@@ -949,7 +1094,7 @@ def check(run):
     run.cov["traces_validated_against_impl"] = stats["traces"]
     run.cov["rule"] = ("systematic families (mode transaction|session x pool_size 1|2 x one pool | two pools on two backends with identical session (pid,key)): "
                        "own-key timings (before any statement, during a gated statement, twice during it, idle in transaction, between transactions, after COMMIT, after X, right pid + wrong secret, random key, other client's key), "
-                       "hand-over of a server between two clients incl. cancel while waiting for the pool, error exits (socket closed | frame with length 3 | Close that panics its decoder | Bind of an unknown statement with the statement cache on; in a transaction | idle) followed by reuse of the server; configuration reloads (write_config + reload_config | admin RELOAD; pool moved to another backend | server added/removed | unchanged; one pool of two changed) while statements run, cancels before and after, next checkout on the new pool; "
+                       "hand-over of a server between two clients incl. cancel while waiting for the pool, error exits (socket closed | frame with length 3 | Close that panics its decoder | Bind of an unknown statement with the statement cache on; in a transaction | idle) followed by reuse of the server; configuration reloads (write_config + reload_config | admin RELOAD; pool moved to another backend | server added/removed | unchanged; one pool of two changed) while statements run, cancels before and after, next checkout on the new pool; refused cancel connections (the backend's listener refuses new connections while established sessions keep working; the requester's statement ends, another client takes the session, the listener returns, 1.6 s of settle time whose late arrivals are judged at arrival time); "
                        "%s; plus %d seeded random client programs (8-14 actions, 2-3 clients; thorough: 12-24 actions, 2-4 clients) with a cancel at ~42%% of the positions and %d random programs with one exit held open at the schedule point. "
                        "evaluations = cancel requests judged three ways (backend packets, trace monitor, Coq model); distinct = distinct (mode, pool size, pools, owner situation, outcome, 3-op context) tuples"
                        % ("exit-window schedules held open with the schedule point %s (task parked between handle() and the drop of Client, another client takes the server, cancels with the departing key before/after)" % HOOK_POINT if hook else "NO schedule point in /repo: exit-window schedules skipped", nrand, nwin))
@@ -959,8 +1104,8 @@ def check(run):
                                      "reloads": stats["reload_ops"], "reloads_that_replaced_a_pool": stats["reload_changed"],
                                      "cancels_by_a_holder_of_a_replaced_pools_session": stats["cancels_holder_of_retired"],
                                      "exit_window_scenarios": stats["window_scenarios"], "cancels_inside_exit_window": stats["window_cancels"],
-                                     "hook_point_present": hook, "scenarios_rerun_after_a_problem": stats["reruns"], "problems_not_reproduced_on_rerun": stats["flaky"][:10], "code_variant": {"cancel_drop_removes": flags[0], "exit_entry_first": flags[1], "reload_prunes": flags[2]} if flags else None}
-    run.cov["transitions"] = "model ops exercised: Checkout, ReleaseNormal, Terminate, ExitDropGuard(clean|unclean), ExitDropClient, Cancel, CancelDrop, Reload (SrvClose is never forced by these scenarios)"
+                                     "hook_point_present": hook, "scenarios_rerun_after_a_problem": stats["reruns"], "problems_not_reproduced_on_rerun": stats["flaky"][:10], "code_variant": {"cancel_drop_removes": flags[0], "exit_entry_first": flags[1], "reload_prunes": flags[2], "cancel_retries": flags[3]} if flags else None}
+    run.cov["transitions"] = "model ops exercised: Checkout, ReleaseNormal, Terminate, ExitDropGuard(clean|unclean), ExitDropClient, Cancel, CancelRefused, DeliverLate, CancelDrop, Reload (SrvClose is never forced by these scenarios)"
     if not proof_ok and not run.violations and not run.broken:
         run.violation("proof-broken", "coq/Cancel/Props.v no longer checks; the wire correspondence found no failing input", {"theorem": "Cancel/Props.v", "coq_log": log[-2500:]}, found_input=False)
     if not quick and proof_ok:
@@ -979,7 +1124,7 @@ def replay(run, path):
     if a.get("error"):
         print("replay: scenario did not run:", a["error"])
         return 2
-    vals = vlib.coq_eval("c10replay", PREAMBLE, ["(cancel_drop_removes code_variant, exit_entry_first code_variant, reload_prunes code_variant)", coq_expr(a)])
+    vals = vlib.coq_eval("c10replay", PREAMBLE, ["(cancel_drop_removes code_variant, exit_entry_first code_variant, reload_prunes code_variant, cancel_retries code_variant)", coq_expr(a)])
     model = vlib.parse_coq(vals[1])
     print("ops  :", a["ops"])
     print("impl :", [str(o) for o in a["obs"]])
